@@ -80,6 +80,32 @@ def eqv [DecidableEq α] (d e : Dict κ α) : Bool :=
 
 end Dict
 
+/-! ## Loops that stop at the first exception -/
+
+/-- `[f(x) for x in l]`, aborting at the first exception. -/
+def mapE {α β : Type} (f : α → Except Err β) : List α → Except Err (List β)
+  | [] => .ok []
+  | x :: r =>
+    match f x with
+    | .error e => .error e
+    | .ok y =>
+      match mapE f r with
+      | .error e => .error e
+      | .ok ys => .ok (y :: ys)
+
+/-- `for x in l: f(x)`, aborting at the first exception. -/
+def allE {α : Type} (f : α → Except Err Unit) : List α → Except Err Unit
+  | [] => .ok ()
+  | x :: r =>
+    match f x with
+    | .error e => .error e
+    | .ok _ => allE f r
+
+/-- `set(l)` as a duplicate-free list (`len(set(l))` is its length). -/
+def dedup {α : Type} [DecidableEq α] : List α → List α
+  | [] => []
+  | a :: r => if r.contains a then dedup r else a :: dedup r
+
 /-! ## Small string helpers (on `List Char`) -/
 
 /-- ASCII lower-casing. `str.lower()` agrees with it on every string whose
